@@ -40,7 +40,7 @@ class _Memo:
 
 
 SEEDS = [(b"M", b"N", b"symmetric"), (b"M2", b"N", b"symmetric"), (b"M", b"N2", b"symmetric2"),
-         (b"ab", b"c", b"s"), (b"a", b"bc", b"s")]
+         (b"ab", b"c", b"s"), (b"a", b"bc", b"s"), (b"", b"N", b""), (b"N", b"M", b"symmetric")]
 IDS = [(b"ab", b"c"), (b"a", b"bc"), (b"", b""), (b"abc", b""), (b"c", b"ab")]
 PWS = [b"pw", b"pW", b"p\x00"]
 
@@ -77,7 +77,6 @@ def session_matrix(groups=("Ed25519", "I1024", "toy11"), quick=True):
                 for pw in (PWS if not quick or gname != "Ed25519" else PWS[:2]):
                     for ids in ((IDS if sd == SEEDS[0] else IDS[:2]) if gname != "Ed25519" else IDS[:2]):
                         plan.append((sd, side, pw, ids))
-        x, y = 3 % q, 5 % q
         if gname != "Ed25519":
             # a session whose first entropy draw is rejected (candidate >= q), then sessions with ordinary entropy
             nb = (q.bit_length() + 7) // 8
@@ -97,9 +96,25 @@ def session_matrix(groups=("Ed25519", "I1024", "toy11"), quick=True):
                 return "start() raised %r for an entropy stream whose first draw must be rejected (%s)" % (ex, gname)
             if m0 != R.spake2_message(rg, "A", b"pw", 7 % q, SEEDS[0]):
                 return "after a rejected first draw start() on %s does not use the second draw as its scalar" % gname
-        for order in (plan, list(reversed(plan))):
-            for (sd, side, pw, ids) in order:
+        # a fresh default parameter set built after custom ones must still be the released one
+        fresh = _Params(g)
+        for nm_, sd_ in (("M", b"M"), ("N", b"N"), ("S", b"symmetric")):
+            if getattr(fresh, nm_).to_bytes() != rg.enc(rg.arbitrary(sd_)):
+                return "a default _Params(%s) built after custom parameter sets has %s != arbitrary_element(%r)" % (gname, nm_, sd_)
+        # edge scalars, each session run twice in a row (a session must not spoil shared objects for its successor)
+        edge = [(SEEDS[0], side, b"pw", IDS[0], xs, ys) for side in "ABS" for (xs, ys) in ((0, 5 % q), (3 % q, 0), (0, 0), (q - 1, 1))]
+        edge = [e for e in edge for _ in (0, 1)]
+        full = [(sd, side, pw, ids, 3 % q, 5 % q) for (sd, side, pw, ids) in plan]
+        for order in (edge + full, list(reversed(full)) + edge):
+            for (sd, side, pw, ids, x, y) in order:
                 params = pobj[sd]
+                # between sessions: a call that fails part-way (wrong argument type); it must leave nothing behind
+                try:
+                    bad = K["S"](b"pw", idSymmetric=u"text-id", params=params, entropy_f=C.entropy_for_scalar(g, 2))
+                    bm = bad.start()
+                    bad.finish(bm[:1] + R.spake2_message(rg, "S", b"pw", 4 % q, sd)[1:])
+                except Exception:
+                    pass
                 what = "%s seeds=%r side=%s pw=%r ids=%r" % (gname, sd, side, pw, ids)
                 e = C.entropy_for_scalar(g, x)
                 inst = K[side](pw, idSymmetric=ids[0], params=params, entropy_f=e) if side == "S" else \
@@ -150,6 +165,16 @@ def finalize_matrix():
     seen = {}
     for order in (args, list(reversed(args))):
         for a in order:
+            # a call that fails part-way (text instead of bytes) must leave nothing behind for the next call
+            for bad in ((u"text",) + tuple(a[1:]), tuple(a[:1]) + (u"text",) + tuple(a[2:]), tuple(a[:2]) + (None,) + tuple(a[3:])):
+                try:
+                    S.finalize_SPAKE2(*bad)
+                except Exception:
+                    pass
+            try:
+                S.finalize_SPAKE2_symmetric(u"text", a[2], a[3], a[4], a[5])
+            except Exception:
+                pass
             got = S.finalize_SPAKE2(*a)
             want = h(h(a[5]) + h(a[0]) + h(a[1]) + a[2] + a[3] + a[4])
             if got != want:
